@@ -228,6 +228,61 @@ def r_pair(repo, tier):
                 r.stmt.lineno,
                 "bytes read from the variable tail into %r reach a return without being appended to obj.bytes (path %s): the instruction consumes bytes that its length does not account for" % (r.var, cfg.describe_path(path)),
             )
+    # order: pieces that are adjacent in the tail (v starts where u ends) are recorded in that order
+    n_order = 0
+    for fid, (f, tails) in sorted(tfs.items(), key=lambda kv: kv[1][0].key):
+        fn = f.node
+        objnames = set(f.params()[:1]) | {"obj"}
+        tv = tail_vars(fn, tails)
+        sl = {}
+        multi = set()
+        for r in consuming_reads(fn, tv):
+            if r.kind != "slice":
+                continue
+            v = r.stmt.value
+            tgt = r.stmt.targets[0]
+            cands = list(zip(tgt.elts, v.elts)) if isinstance(tgt, ast.Tuple) and isinstance(v, ast.Tuple) else [(tgt, v)]
+            for tt, vv in cands:
+                if isinstance(tt, ast.Name) and tt.id == r.var and isinstance(vv, ast.Subscript) and isinstance(vv.slice, ast.Slice):
+                    if r.var in sl:
+                        multi.add(r.var)
+                    sl[r.var] = (norm(vv.value), norm(vv.slice.lower) if vv.slice.lower is not None else "0", norm(vv.slice.upper) if vv.slice.upper is not None else None)
+        for k in multi:
+            sl.pop(k, None)
+        if len(sl) < 2:
+            continue
+        # recorded order: (statement line, position inside the + chain)
+        order = []
+        for st in ast.walk(fn):
+            e = is_record(st, objnames)
+            if e is None:
+                continue
+            pos = 0
+            for c in ast.walk(e):
+                pass
+            def chain(x):
+                if isinstance(x, ast.BinOp) and isinstance(x.op, ast.Add):
+                    return chain(x.left) + chain(x.right)
+                return [x]
+            for k, part in enumerate(chain(e)):
+                vs = [nm for nm in names_in(part) if nm in sl]
+                if len(vs) == 1:
+                    order.append((st.lineno, k, vs[0], st))
+        order.sort(key=lambda t: (t[0], t[1]))
+        seq = [t[2] for t in order]
+        for u, (tu, lu, uu) in sl.items():
+            for v, (tv_, lv, uv) in sl.items():
+                if u == v or tu != tv_ or uu is None or uu != lv:
+                    continue
+                if seq.count(u) != 1 or seq.count(v) != 1:
+                    continue
+                n_order += 1
+                iu, iv = seq.index(u), seq.index(v)
+                out.inst("%s::order %s<%s" % (f.key, u, v), {"function": f.key, "first": "%s = %s[%s:%s]" % (u, tu, lu, uu), "then": "%s = %s[%s:%s]" % (v, tv_, lv, uv), "recorded_order": seq})
+                if iu > iv:
+                    st = order[iv][3]
+                    out.report(f.file, f.dqual, "record order %s before %s" % (v, u), st.lineno, "%s = %s[%s:%s] precedes %s = %s[%s:%s] in the input but is appended to obj.bytes after it: the recorded bytes are a permutation, not a prefix, of the input" % (u, tu, lu, uu, v, tv_, lv, uv))
+    out.stats["ordered_pairs"] = n_order
     out.stats.update({"tail_functions": len(tfs), "reading": n_read_f, "delegating": n_deleg, "untouched": n_none})
     if len(tfs) < 200 or n_read_f < 60:
         raise AnalysisError("R-PAIR: %d tail-taking functions / %d reading (>=200 / >=60 expected)" % (len(tfs), n_read_f))
